@@ -62,6 +62,10 @@ func variantsOf(doc []byte, r *rand.Rand) [][]byte {
 	out = append(out, []byte(strings.Repeat("[", 5000)))
 	out = append(out, []byte(strings.Repeat("a: &x [*x, ", 50)))
 	out = append(out, []byte("\x00\x01\xff\xfe{\"cdiVersion\""))
+	// documents without data: empty, blank, comment only, marker only, null, a scalar, a list
+	for _, d := range []string{"", " \n\t\n", "# nothing\n", "---\n", "--- ~\n", "null\n", "...\n", "42\n", "- a\n", "\"s\"\n", "{}", "[]"} {
+		out = append(out, []byte(d))
+	}
 	out = append(out, bytes.Replace(doc, []byte(`"cdiVersion"`), []byte(`"cdiVersion":1e400,"cdiVersion"`), 1))
 	return out
 }
